@@ -32,3 +32,14 @@ Theorem C04_chk_means_increasing_per_bucket_across_restarts : forall tr1 b c tr2
   chk_C04 (tr1 ++ EvCas b c true :: tr2 ++ [EvCas b c' cm']) = true -> c < c'.
 Proof. exact chk_C04_sound_bucket. Qed.
 Print Assumptions C04_chk_means_increasing_per_bucket_across_restarts.
+
+(* The same statement over whole key-value histories of one bucket (any collections, keys, entry points, arguments,
+   scripted clocks - standing still, going back -, purges, drops, expiry sweeps whole or interrupted, failed attempts of
+   compare-and-swap loops, reopen): every CAS stamped by the regular API is greater than every CAS stamped before it, in
+   the order in which the events were posted.  The executable checker that says so (it is also run on the
+   implementation's traces) accepts every history of the model.  WithMeta writes carry a CAS of the caller's choosing
+   and are not part of the statement; they never turn the clock back (KvC04.sstep_high_mono). *)
+From Rosmar Require Import Json Crc Kv Store Trace KvLift KvC04.
+Theorem C04_checker_accepts_every_model_history : forall c : scase, wf_case c -> chk_C04_kv (c, srun c) = true.
+Proof. exact C04_kv_sound. Qed.
+Print Assumptions C04_checker_accepts_every_model_history.
